@@ -17,6 +17,8 @@ Lemma copy_plumbing_is_identity (attr : bool) (so : obj) cs : copy_obj attr so c
 Proof. destruct attr, so as [? ? ? ? [? ? ? ? ? ?] ?]; reflexivity. Qed.
 Lemma copy_connectivity_is_deep : copy_connectivity_mode = Copy.
 Proof. reflexivity. Qed.
+Lemma prepare_copies : prepare_vertex_mode = Copy.
+Proof. reflexivity. Qed.
 Lemma translate_by_value : translate_param_by_value = true.
 Proof. reflexivity. Qed.
 Lemma ring_all_fresh N nc open : Forall (fun s => s = SFresh) (ring_pattern N nc open).
@@ -178,23 +180,36 @@ Lemma ring_cells_spec m N nc open vs m' cs :
 Proof.
   unfold ring_cells. destruct (build_pat m [] (ring_pattern N nc open) vs) as [[m1 cs1]|] eqn:E; [|discriminate].
   apply build_pat_fresh in E as (cs0 & -> & Hfb & Hf & Hmap); [|apply ring_all_fresh].
-  change ring_apex_rebound with true. change prepare_vertex_mode with Alias. cbn [take app].
-  destruct cs0 as [|c0 t].
-  - intros E; inversion E; subst. split; [constructor|]. split; [constructor|]. split; [exact Hf|].
-    split; [intros c []|]. reflexivity.
-  - destruct (alloc1 m1 (nth 0 vs (vzero O))) as [m2 c'] eqn:E1. intros E; inversion E; subst; clear E.
-    apply (alloc1_spec O) in E1 as (Hc & Hn & Hv & Hf1). subst c'.
-    destruct Hfb as [Hnd Hr]. inversion Hnd as [|? ? Hn0 Hnt]; subst. inversion Hr as [|? ? Hr0 Hrt]; subst.
-    assert (Hle : (mnext m <= mnext m1)%positive) by apply Hf.
-    assert (Hle2 : (mnext m1 <= mnext m')%positive) by apply Hf1.
-    split; [|split; [|split; [|split]]].
-    + constructor; auto. intros Hin. rewrite Forall_forall in Hrt. specialize (Hrt _ Hin). lia.
-    + constructor; [unfold allocated; lia|]. eapply Forall_impl; [|exact Hrt]. unfold allocated. simpl. intros; lia.
-    + eapply frame_trans; eauto.
-    + intros c [<-|Hin]; unfold allocated; [lia|]. rewrite Forall_forall in Hrt. specialize (Hrt _ Hin). lia.
-    + cbn [map]. cbn [map nth] in Hv. f_equal; [exact Hv|].
-      apply map_ext_in. intros x Hx. destruct Hf1 as [_ Hf1]. apply Hf1.
-      rewrite Forall_forall in Hrt. specialize (Hrt _ Hx). unfold allocated. lia.
+  change ring_apex_rebound with true. cbn [app].
+  (* cells before prepare(): pairwise distinct, allocated after m *)
+  assert (Hpre : exists m2 cs2,
+            (match cs0 with c0 :: t => let '(m', c') := alloc1 m1 (nth 0 vs (vzero O)) in (m', c' :: t) | [] => (m1, cs0) end)
+            = (m2, cs2)
+            /\ NoDup cs2 /\ Forall (allocated m2) cs2 /\ frame O m m2 /\ (forall c, In c cs2 -> ~ allocated m c)
+            /\ map (rd (mheap m2)) cs2 = vs).
+  { destruct cs0 as [|c0 t].
+    - exists m1, []. split; [reflexivity|]. split; [constructor|]. split; [constructor|]. split; [exact Hf|].
+      split; [intros c []|]. exact Hmap.
+    - destruct (alloc1 m1 (nth 0 vs (vzero O))) as [m2 c'] eqn:E1. exists m2, (c' :: t). split; [reflexivity|].
+      apply (alloc1_spec O) in E1 as (Hc & Hn & Hv & Hf1). subst c'.
+      destruct Hfb as [Hnd Hr]. inversion Hnd as [|? ? Hn0 Hnt]; subst. inversion Hr as [|? ? Hr0 Hrt]; subst.
+      assert (Hle : (mnext m <= mnext m1)%positive) by apply Hf.
+      assert (Hle2 : (mnext m1 <= mnext m2)%positive) by apply Hf1.
+      split; [|split; [|split; [|split]]].
+      + constructor; auto. intros Hin. rewrite Forall_forall in Hrt. specialize (Hrt _ Hin). lia.
+      + constructor; [unfold allocated; lia|]. eapply Forall_impl; [|exact Hrt]. unfold allocated. simpl. intros; lia.
+      + eapply frame_trans; eauto.
+      + intros c [<-|Hin]; unfold allocated; [lia|]. rewrite Forall_forall in Hrt. specialize (Hrt _ Hin). lia.
+      + cbn [map]. cbn [map nth] in Hv. f_equal; [exact Hv|].
+        apply map_ext_in. intros x Hx. destruct Hf1 as [_ Hf1]. apply Hf1.
+        rewrite Forall_forall in Hrt. specialize (Hrt _ Hx). unfold allocated. lia. }
+  destruct Hpre as (m2 & cs2 & -> & Hnd2 & Hal2 & Hf2 & Hfresh2 & Hmap2).
+  intros E. assert (Et : take O prepare_vertex_mode m2 cs2 = (m', cs)) by congruence. clear E.
+  pose proof Et as Et'. apply take_spec in Et as (A & B & C & D); auto.
+  split; [exact A|]. split; [exact B|]. split; [eapply frame_trans; eauto|]. split; [|now rewrite D].
+  intros c Hc Hal. rewrite prepare_copies in Et'.
+  apply take_copy_fresh in Et' as (Hfb' & _ & _). apply (fresh_block_not_allocated _ _ _ _ Hfb' Hc).
+  eapply allocated_mono; eauto.
 Qed.
 
 (* merge takes every input over into one fresh block, input by input - also when an input occurs twice *)
